@@ -215,6 +215,25 @@ fn gen_c11(ch: &mut Chunker, r: &mut Rng, thorough: bool, scale: usize) {
             rec_words(ch, &s, sep);
         }
     }
+    // plain prose: letters, spaces and ASCII punctuation (UAX #14 forbids a break before . , ; : even after spaces)
+    for s in all_strings(&['a', ' ', '.', ',', ';', '\''], if thorough { 5 } else { 4 }) {
+        for &sep in seps {
+            rec_words(ch, &s, sep);
+        }
+    }
+    for _ in 0..300 * scale {
+        let n = r.range(2, 6);
+        let mut s = String::new();
+        for k in 0..n {
+            if k > 0 {
+                s.push_str(*r.pick(&[" ", " ", "  ", " , ", " . ", " ; ", " : ", ", ", ". ", " ' ", " \" ", " ! ", " ? ", " ) ", " ( "]));
+            }
+            s.push_str(*r.pick(ASCII_WORDS));
+        }
+        for &sep in seps {
+            rec_words(ch, &s, sep);
+        }
+    }
     // random scalar values without spaces between them (CJK, emoji, Latin extensions, punctuation), optionally with a sequence
     for i in 0..2500 * scale {
         let mut s = rand_word(r, 6);
@@ -341,10 +360,14 @@ pub fn gen_wrap_family(ch: &mut Chunker, r: &mut Rng, prop: &str, _thorough: boo
         let words: Vec<&str> = (0..n).map(|k| if (i + k) % 3 == 2 { *r.pick(ASCII_WORDS) } else { *r.pick(ZW_WORDS) }).collect();
         let text = words.join(" ");
         let dw = display_width_oracle(&text);
-        for w in dw.saturating_sub(1)..=text.len() + 1 {
+        // hyphenated words: every width from 1 (a piece's cached width matters at the width of the *line*, not of the text)
+        let lo = if text.contains('-') { 1 } else { dw.saturating_sub(1) };
+        for w in lo..=text.len() + 1 {
             let mut o = gen_opts(r, &ocfg, w);
             o.crlf = false;
-            if matches!(o.splitter, Splitter::Every2 | Splitter::Every3) || i % 2 == 0 {
+            if text.contains('-') {
+                o.splitter = Splitter::Hyphen;
+            } else if matches!(o.splitter, Splitter::Every2 | Splitter::Every3) || i % 2 == 0 {
                 o.splitter = Splitter::None;
             }
             if i % 3 != 0 {
